@@ -610,6 +610,15 @@ func c03scaleSpace(thorough bool) c03space {
 			deep = append(deep, c03scaleGen{k, 1 << 20, 0})
 		}
 	}
+	// between the limits: deep enough that a compiler (or dumper) that does not count its own depth overflows, shallow
+	// enough that the parser's own limit does not refuse the input first
+	for _, k := range c03quadKinds {
+		if k != "cases" {
+			for _, n := range []int{12000, 40000, 90000} {
+				deep = append(deep, c03scaleGen{k, n, 0})
+			}
+		}
+	}
 	// short units four million deep (4-8 MB of source): every recursion of the parser must be counted
 	for _, k := range []string{"not", "neg", "compl", "deref", "ptr-type", "slicetype", "paren", "block"} {
 		deep = append(deep, c03scaleGen{k, 1 << 22, 0})
